@@ -155,3 +155,22 @@ package soymsg
 //@   at call store#0 assert[text-before-the-placeholder;C11] substr(val, str, pos) && len(val) == start - pos
 //@   at call store#2 assert[name-without-braces;C11] substr(val, str, start + 1) && len(val) == end - start - 2
 //@   at call store#4 assert[text-after-the-last-placeholder;C11] substr(val, str, pos) && len(val) == len(str) - pos
+
+// C10 (the arithmetic of the fingerprint is outside the integer model; what is
+// proved is its shape): hash32 reads the string in blocks of twelve bytes and
+// leaves fewer than twelve for the tail, whose cases 1..11 each add their own
+// byte - so every byte of the fingerprinted string (and of the meaning)
+// contributes to the id - and never indexes outside the string.
+//@ func hash32
+//@   props C10
+//@   requires 0 <= start && start <= limit && limit <= len(str)
+//@   pure
+//@   loop 0
+//@     invariant[whole-blocks-consumed-so-far;C10] start <= i && i <= limit && (i - start) % 12 == 0
+//@     atexit[fewer-than-twelve-bytes-left-for-the-tail;C10] 0 <= limit - i && limit - i <= 11
+//@     decreases limit - i
+//@ func fingerprint
+//@   props C10
+//@   pure
+//@   at call soymsg.hash32#0 assert[first-half-over-the-whole-string;C10] sameslice(arg0, str) && arg1 == 0 && arg2 == len(str) && arg3 == 0
+//@   at call soymsg.hash32#1 assert[second-half-over-the-whole-string-with-the-second-seed;C10] sameslice(arg0, str) && arg1 == 0 && arg2 == len(str) && arg3 == 102072
